@@ -79,10 +79,6 @@ func c20PacerCfg(reno bool, initPkts int, dq, dt int) func(bool) *c20Cfg {
 		}
 		if th {
 			c.depth = dt
-			if reno {
-				c.sizes = []int{0, 1, 2}
-				c.rtts = []time.Duration{time.Millisecond, 100 * time.Millisecond, 10 * time.Second}
-			}
 		}
 		return c
 	}
@@ -107,7 +103,7 @@ func TestVerifC20Cc(t *testing.T) {
 	explore.Main("C20", []explore.Part{
 		c20Part("reno-window", c20WinCfg(true, 4, false, 8, 9)),
 		c20Part("cubic-window", c20WinCfg(false, 4, false, 7, 8)),
-		c20Part("reno-window3", c20WinCfg(true, 3, false, 7, 9)),
+		c20Part("reno-window3", c20WinCfg(true, 3, false, 7, 8)),
 		c20Part("reno-window8", c20WinCfg(true, 8, true, 7, 8)),
 		c20Part("cubic-window8", c20WinCfg(false, 8, true, 6, 7)),
 		c20Part("reno-pacer", c20PacerCfg(true, 4, 5, 6)),
